@@ -208,6 +208,10 @@ func consumeError(p *Prog, v ssa.Value, seen map[ssa.Value]bool, c *consumption)
 			case *ssa.FreeVar:
 				followCell(p, a, seen, c)
 			default:
+				if why := storedErrorOverwritten(p, x); why != "" {
+					c.tests = append(c.tests, why)
+					continue
+				}
 				c.consumed = true
 				c.how = append(c.how, "stored into "+describeValue(x.Addr))
 			}
@@ -226,12 +230,12 @@ func consumeError(p *Prog, v ssa.Value, seen map[ssa.Value]bool, c *consumption)
 			if !isArg && !(com.IsInvoke() && com.Value == v) {
 				// v is the function value being called?  not for errors.
 				if com.IsInvoke() && com.Value == v {
-					c.tests = append(c.tests, "method "+com.Method.Name()+" called on it")
+					c.tests = append(c.tests, "method "+methodName(com.Method)+" called on it")
 				}
 				continue
 			}
 			if com.IsInvoke() && com.Value == v && !isArg {
-				c.tests = append(c.tests, "method "+com.Method.Name()+" called on it")
+				c.tests = append(c.tests, "method "+methodName(com.Method)+" called on it")
 				continue
 			}
 			switch {
@@ -504,6 +508,13 @@ func err1Obligations(w *World) []Ob {
 					continue
 				}
 			}
+			if c.consumed {
+				if why := errorSideReturnsNil(p, s, fn); why != "" {
+					ob.Status, ob.Detail = Violation, why
+					l.add(ob)
+					continue
+				}
+			}
 			switch {
 			case c.consumed:
 				ob.Status, ob.Detail = OK, strings.Join(dedupSorted(c.how), "; ")
@@ -558,7 +569,7 @@ func writerSinkRole(p *Prog, fn *ssa.Function, ci ssa.CallInstruction) string {
 			}
 		}
 	}
-	if com.IsInvoke() && com.Method.Name() == "Write" && isNamed(com.Value.Type(), "io", "Writer") {
+	if com.IsInvoke() && methodName(com.Method) == "Write" && isNamed(com.Value.Type(), "io", "Writer") {
 		return "sink"
 	}
 	return ""
@@ -991,4 +1002,152 @@ func pairedErrorUntested(s errSource) string {
 		}
 	}
 	return "the error of " + s.what + " is never compared with nil; it is only passed on under conditions on the accompanying value, so a (value, non-nil error) pair is treated as success"
+}
+
+// errorSideReturnsNil: on the side where the error of a source is known to be non-nil, a return of the enclosing
+// function hands back an error value that is not provably non-nil and is not that error: the failure can turn into
+// success on that path (`if errors.Is(err, X) { return ctx.Err() }`).  Explicit `return nil` is the documented way to
+// ignore a sentinel and is judged by the rules that know the sentinel (TAB-1), so constants are not reported here.
+func errorSideReturnsNil(p *Prog, s errSource, fn *ssa.Function) string {
+	if s.val == nil || fn.Signature.Results().Len() == 0 {
+		return ""
+	}
+	res := fn.Signature.Results()
+	if !isErrorType(res.At(res.Len() - 1).Type()) {
+		return ""
+	}
+	nc := newNilCtxCached(p)
+	why := ""
+	allInstrs(fn, func(in ssa.Instruction) {
+		r, ok := in.(*ssa.Return)
+		if !ok || why != "" {
+			return
+		}
+		vals := rr(r)
+		if len(vals) == 0 {
+			return
+		}
+		ev := vals[len(vals)-1]
+		known := guardedNonNil(s.val, r)
+		if !known {
+			// errors.Is(e, X) / errors.As(e, &t) holding implies e != nil
+			for _, g := range guardsOf(r.Block()) {
+				c, pol := flattenCond(g.Cond, g.Pol)
+				if call, ok := c.(*ssa.Call); ok && pol {
+					switch calleeFullName(call.Common()) {
+					case "errors.Is", "errors.As":
+						if sameValueAt(call.Common().Args[0], g, s.val, r) {
+							known = true
+						}
+					}
+				}
+			}
+		}
+		if !known {
+			return
+		}
+		if _, isConst := ev.(*ssa.Const); isConst {
+			return
+		}
+		if sameVar(ev, s.val) || ev == s.val || nc.nonNil(ev, r, 0) {
+			return
+		}
+		// a value computed from the error (wrapping) counts as that error
+		if dependsOnValue(ev, s.val, 0) {
+			return
+		}
+		why = "where the error of " + s.what + " is known to be non-nil, the return at " + p.InstrPos(r) + " hands back " + describeValue(ev) + ", which may be nil: the failure is reported as success on that path"
+	})
+	return why
+}
+
+var nilCtxCache = map[*Prog]*nilCtx{}
+
+func newNilCtxCached(p *Prog) *nilCtx {
+	if c, ok := nilCtxCache[p]; ok {
+		return c
+	}
+	c := newNilCtx(p)
+	nilCtxCache[p] = c
+	return c
+}
+
+// storedErrorOverwritten: the error is parked in a field of an object handed in by the caller, the store does not
+// first look whether an earlier error is still parked there, and a caller invokes the storing function several times
+// on the same object without reading the field in between: only the last call's error survives.
+func storedErrorOverwritten(p *Prog, st *ssa.Store) string {
+	fa, ok := st.Addr.(*ssa.FieldAddr)
+	if !ok {
+		return ""
+	}
+	fn := st.Parent()
+	prm, ok := resolve(fa.X).(*ssa.Parameter)
+	if !ok || prm.Parent() != fn {
+		return ""
+	}
+	field := fieldName(fa.X.Type(), fa.Field)
+	// sticky: the store is guarded by a test of the same field
+	for _, g := range guardsOf(st.Block()) {
+		if tv, _, isNil := nilTest(g.Cond, g.Pol); isNil {
+			if ld, isL := isLoad(stripConv(tv)); isL {
+				if gfa, ok := ld.(*ssa.FieldAddr); ok && gfa.Field == fa.Field && sameVar(gfa.X, fa.X) {
+					return ""
+				}
+			}
+		}
+	}
+	pi := paramIndex(fn, prm)
+	byCaller := map[*ssa.Function][]ssa.CallInstruction{}
+	for _, ci := range p.Callers(fn) {
+		byCaller[ci.Parent()] = append(byCaller[ci.Parent()], ci)
+	}
+	for caller, sites := range byCaller {
+		if len(sites) < 2 {
+			// one site in a loop counts as several
+			if len(sites) == 1 && inLoop(sites[0]) {
+				sites = append(sites, sites[0])
+			} else {
+				continue
+			}
+		}
+		for i, a := range sites {
+			for j, b := range sites {
+				if i == j && !inLoop(a) {
+					continue
+				}
+				args1, args2 := callArgs(a.Common()), callArgs(b.Common())
+				if pi >= len(args1) || pi >= len(args2) || !sameObject(args1[pi], args2[pi]) {
+					continue
+				}
+				if a != b && !reachableAfter(a, b) {
+					continue
+				}
+				// is the field read between the two calls?
+				read := false
+				allInstrs(caller, func(in ssa.Instruction) {
+					u, ok := in.(*ssa.UnOp)
+					if !ok || u.Op != token.MUL {
+						return
+					}
+					if lfa, ok := u.X.(*ssa.FieldAddr); ok && lfa.Field == fa.Field && sameObject(lfa.X, args1[pi]) {
+						if reachableAfter(a, u) && reachableAfter(u, b) && u.Block() != b.Block() || (u.Block() == a.Block() && u.Block() == b.Block() && instrIndex(a) < instrIndex(u) && instrIndex(u) < instrIndex(b)) {
+							read = true
+						}
+					}
+				})
+				if !read {
+					return "parked in field " + field + " by " + fname(fn) + ", which " + p.FuncID(caller) + " calls again on the same object (" + p.InstrPos(b) + ") before looking at the field: an earlier failure is overwritten by a later success"
+				}
+			}
+		}
+	}
+	return ""
+}
+
+// sameObject: two values denote the same object (same variable, or the address of the same local).
+func sameObject(a, b ssa.Value) bool {
+	if a == b || sameVar(a, b) {
+		return true
+	}
+	return stripConv(a) == stripConv(b)
 }
